@@ -296,7 +296,7 @@ def _find_domain_log_exp(op, domain):
 @find_domain.register(ops.ReductionOp)
 def _find_domain_reduction(op, domain):
     # Canonicalize dim.
-    dim = op.defaults.get("dim", None)
+    dim = op.defaults.get("axis", op.defaults.get("dim", None))
     ndims = len(domain.shape)
     if dim is None:
         dims = set(range(ndims))
